@@ -242,11 +242,15 @@ theorem forall_append {Q : Touch → Prop} {l1 l2 : List Touch} (h1 : ∀ t ∈ 
   · exact h1 t ht
   · exact h2 t ht
 
-theorem forall_verifyUpload {Q : Touch → Prop} {u : Bytes} {sofar : List Touch} {k : List Touch → Plan}
+theorem forall_verifyUpload {Q : Touch → Prop} {u b key : Bytes} {sofar : List Touch} {k : List Touch → Plan}
     (h1 : ∀ t ∈ sofar, Q t)
-    (h2 : ∀ info, uploadInfoPath e u = .ok info → ∀ t ∈ (k (sofar ++ [rd info])).touches, Q t) :
-    ∀ t ∈ (verifyUpload e u sofar k).touches, Q t :=
-  forall_withPath h1 h2
+    (h2 : ∀ info, uploadInfoPath e u = .ok info → Q (rd info) ∧ ∀ t ∈ (k (sofar ++ [rd info])).touches, Q t) :
+    ∀ t ∈ (verifyUpload e u b key sofar k).touches, Q t := by
+  refine forall_withPath h1 fun info hinfo => ?_
+  by_cases ha : (e.uploadRec u).allows b key = true
+  · simp only [if_pos ha]; exact (h2 info hinfo).2
+  · simp only [if_neg ha]
+    exact forall_fail (forall_append h1 (forall_cons (h2 info hinfo).1 forall_nil))
 
 /-- split a goal `∀ t ∈ <explicit list>, Q t` into one goal per element -/
 macro "touch_list" : tactic =>
@@ -507,6 +511,7 @@ theorem plan_uploadPart (b k uid : Bytes) (part : Int) (hasBody : Bool) (c : Nat
     refine forall_verifyUpload forall_nil fun info hinfo => ?_
     have h1 : P e enc (.uploadPart b k uid part hasBody c) ⟨.read, .path info⟩ :=
       L_name hr (good_uploadInfoName hu) ⟨u, hpu, .inl ⟨rfl, rfl⟩⟩ hinfo
+    refine ⟨h1, ?_⟩
     have hpre : ∀ t ∈ ([] : List Touch) ++ [rd info], P e enc (.uploadPart b k uid part hasBody c) t := by
       touch_list <;> solve_by_elim
     refine forall_withPath hpre fun pp hpp => ?_
@@ -532,6 +537,7 @@ theorem plan_uploadPartCopy (ap : Bool) (sb sk b k uid : Bytes) (part : Int) (c 
     refine forall_verifyUpload forall_nil fun info hinfo => ?_
     have h1 : P e enc (.uploadPartCopy ap sb sk b k uid part c) ⟨.read, .path info⟩ :=
       L_name hr (good_uploadInfoName hu) ⟨u, hpu, .inl ⟨rfl, rfl⟩⟩ hinfo
+    refine ⟨h1, ?_⟩
     have hpre : ∀ t ∈ ([] : List Touch) ++ [rd info], P e enc (.uploadPartCopy ap sb sk b k uid part c) t := by
       touch_list <;> solve_by_elim
     split
@@ -565,9 +571,10 @@ theorem plan_listParts (b k uid : Bytes) :
   | none => exact forall_nil
   | some u =>
     have hu := parseUuid_noSlash hpu
-    refine forall_withPath forall_nil fun info hinfo => ?_
+    refine forall_verifyUpload forall_nil fun info hinfo => ?_
     have h0 : P e enc (.listParts b k uid) ⟨.read, .path info⟩ :=
       L_name hr (good_uploadInfoName hu) ⟨u, hpu, rfl, .inl rfl⟩ hinfo
+    refine ⟨h0, ?_⟩
     have h1 : P e enc (.listParts b k uid) ⟨.list, .path e.root⟩ := L_rootList hr rfl
     have h2 : P e enc (.listParts b k uid) ⟨.read, .childrenPrefixed e.root (uploadPartPrefix u)⟩ :=
       L_children_parts hr fun n h => ⟨u, hpu, rfl, .inr h⟩
@@ -628,6 +635,7 @@ theorem plan_completeMultipartUpload (b k uid : Bytes) (parts : Option (List Int
       refine forall_verifyUpload forall_nil fun info hinfo => ?_
       have h1 : ∀ acc, P e enc (.completeMultipartUpload b k uid (some ps) c) ⟨acc, .path info⟩ :=
         fun _ => L_name hr (good_uploadInfoName hu) ⟨u, hpu, .inl rfl⟩ hinfo
+      refine ⟨h1 _, ?_⟩
       have hp1 : ∀ t ∈ ([] : List Touch) ++ [rd info], P e enc (.completeMultipartUpload b k uid (some ps) c) t := by
         touch_list <;> solve_by_elim
       refine forall_withPath hp1 fun p hp => ?_
@@ -691,6 +699,7 @@ theorem plan_abortMultipartUpload (b k uid : Bytes) :
     refine forall_verifyUpload forall_nil fun info hinfo => ?_
     have h1 : ∀ acc, P e enc (.abortMultipartUpload b k uid) ⟨acc, .path info⟩ :=
       fun _ => L_name hr (good_uploadInfoName hu) ⟨u, hpu, .inl rfl⟩ hinfo
+    refine ⟨h1 _, ?_⟩
     have hp1 : ∀ t ∈ ([] : List Touch) ++ [rd info], P e enc (.abortMultipartUpload b k uid) t := by
       touch_list <;> solve_by_elim
     refine forall_withPath hp1 fun um hum => ?_
